@@ -48,7 +48,7 @@ func checkDefs() map[string]*CheckDef {
 				return []RunSpec{
 					{Name: "total", Pkg: ioc + "/component_definition", Entry: "VerifC19Total", Params: map[string]int{"N": tierPick(tier, 5, 6)}},
 					{Name: "required", Pkg: ioc + "/component_definition", Entry: "VerifC19Required", Params: map[string]int{"N": tierPick(tier, 4, 5)}, MustCover: []string{"parsed"}},
-					{Name: "faithful", Pkg: ioc + "/component_definition", Entry: "VerifC19Faithful", Params: map[string]int{"L": tierPick(tier, 1, 2)}, MustCover: []string{"bracketed item", "bracketed value", "several valued arguments"}},
+					{Name: "faithful", Pkg: ioc + "/component_definition", Entry: "VerifC19Faithful", Params: map[string]int{"L": tierPick(tier, 1, 2)}, MustCover: []string{"bracketed item", "bracketed value", "several valued arguments", "argument name starting with a non-ASCII byte"}},
 					{Name: "required-faithful", Pkg: ioc + "/component_definition", Entry: "VerifC19RequiredFaithful", Params: map[string]int{"X": 5}, MustCover: []string{"optional"}},
 					{Name: "prop-shorthand", Pkg: ioc + "/container/processors", Entry: "VerifC09ValueSequence", MustCover: []string{"all required values present"}},
 				}
@@ -236,6 +236,7 @@ func checkDefs() map[string]*CheckDef {
 			Runs: func(tier string) []RunSpec {
 				return []RunSpec{
 					{Name: "register", Pkg: fac, Entry: "VerifC07Register", Params: map[string]int{"K": 3, "L": tierPick(tier, 1, 2)}, MustCover: []string{"duplicate rejected", "same-named types of different packages", "stateless components sharing a name"}, Opts: ExecOpts{PermuteRange: true}},
+					{Name: "register-log-levels", Pkg: fac, Entry: "VerifC07Register", Params: map[string]int{"K": 3, "L": 1, "LOGLEVEL": 1}, MustCover: []string{"duplicate rejected", "log level changed before registration"}, Opts: ExecOpts{RealSyslog: true}},
 					rh("by-name", "VerifC07", map[string]int{"K": tierPick(tier, 2, 3)}, "named component found", "named component has an incompatible type", "optional point, no such component", "name given through a placeholder", "field holds a built-in default before start-up"),
 					rh("peers-of-the-holders-type", "VerifC07Peers", nil, "peer of the holder's own type"),
 					rh("several-named-points", "VerifC07Fields", nil, "absent optional name next to other points"),
@@ -380,7 +381,8 @@ func checkDefs() map[string]*CheckDef {
 		case "C10":
 			inner := d.Runs
 			d.Runs = func(tier string) []RunSpec {
-				return append(inner(tier), graphRun(tier, true))
+				oc := RunSpec{Name: "dependency-creation-order", Pkg: app, Entry: "VerifAppOrderCycle", MustCover: []string{"slice point", "wire and func points in one holder"}, Opts: ExecOpts{Sched: "seq", Termination: true, MaxSteps: 3000000, PermuteRange: true, PermuteCoarse: true}}
+				return append(inner(tier), graphRun(tier, true), oc)
 			}
 		}
 	}
